@@ -161,6 +161,7 @@ public:
 		// And empty() doesn't guarantee the list is still empty after the function returned.
 		//std::lock_guard<Mutex> lockGuard(mutex);
 
+		EVENTPP_VERIF_POINT("cl.empty.head.racy_r");
 		return ! head;
 	}
 
@@ -181,6 +182,7 @@ public:
 		NodePtr node(doAllocateNode(callback));
 
 		std::lock_guard<Mutex> lockGuard(mutex);
+		EVENTPP_VERIF_POINT("cl.append.cs.w");
 
 		doAppendNode(node);
 
@@ -192,6 +194,7 @@ public:
 		NodePtr node(doAllocateNode(callback));
 
 		std::lock_guard<Mutex> lockGuard(mutex);
+		EVENTPP_VERIF_POINT("cl.prepend.cs.w");
 
 		if(head) {
 			node->next = head;
@@ -212,10 +215,12 @@ public:
 		//assert(before.expired() || ownsHandle(before));
 
 		NodePtr beforeNode = before.lock();
+		EVENTPP_VERIF_POINT("cl.insert.locked_handle.racy_r");
 		if(beforeNode) {
 			NodePtr node(doAllocateNode(callback));
 
 			std::lock_guard<Mutex> lockGuard(mutex);
+			EVENTPP_VERIF_POINT("cl.insert.cs.w");
 
 			// beforeNode may have been removed already but is kept alive by a running
 			// invocation (or was removed after before.lock() above), then append.
@@ -240,6 +245,7 @@ public:
 		// It looks like the lock can be put inside the `if` below,
 		// but that doesn't work in multi-threading and cause related unit tests fail.
 		std::lock_guard<Mutex> lockGuard(mutex);
+		EVENTPP_VERIF_POINT("cl.remove.cs.w");
 
 		auto node = handle.lock();
 		if(node && node->counter != removedCounter) {
@@ -253,6 +259,7 @@ public:
 	bool ownsHandle(const Handle & handle) const
 	{
 		std::lock_guard<Mutex> lockGuard(mutex);
+		EVENTPP_VERIF_POINT("cl.owns.cs.r");
 
 		auto node = handle.lock();
 		if(node && node->counter != removedCounter) {
@@ -336,12 +343,14 @@ private:
 
 		{
 			std::lock_guard<Mutex> lockGuard(mutex);
+			EVENTPP_VERIF_POINT("cl.visit.head.r");
 			node = head;
 		}
 
 		const Counter counter = currentCounter.load(std::memory_order_acquire);
 
 		while(node) {
+			EVENTPP_VERIF_POINT("cl.visit.counter.racy_r");
 			if(node->counter != removedCounter && counter >= node->counter) {
 				if(! f(node)) {
 					return false;
@@ -350,6 +359,7 @@ private:
 
 			{
 				std::lock_guard<Mutex> lockGuard(mutex);
+				EVENTPP_VERIF_POINT("cl.visit.step.r");
 				node = node->next;
 			}
 		}
@@ -376,6 +386,7 @@ private:
 		if(head) {
 			node->previous = tail;
 			tail->next = node;
+			EVENTPP_VERIF_POINT("cl.append.mid.w");
 			tail = node;
 		}
 		else {
@@ -411,6 +422,8 @@ private:
 		if(node->previous) {
 			node->previous->next = node->next;
 		}
+
+		EVENTPP_VERIF_POINT("cl.free.mid.w");
 
 		// Mark it as deleted, this must be before the assignment of head and tail below,
 		// because node can be a reference to head or tail, and after the assignment, node
